@@ -120,7 +120,7 @@ func genLogCase(t *rapid.T, o datagen.QueryOpts, formats []string) LogCase {
 
 func c01Gen(t *rapid.T) LogCase {
 	return genLogCase(t, datagen.QueryOpts{MaxStages: 5, AllowDistinct: true, AllowParsers: true, AllowRewrite: true},
-		[]string{"plain", "json", "json", "logfmt", "delim"})
+		[]string{"plain", "json", "json", "logfmt", "delim", "packed"})
 }
 
 // TestC01 decides C01.
